@@ -116,10 +116,16 @@ static int propC05, propC10, propC11, propC12;
    operations of the alphabet (set, get, push_at, pop_at as explicit operations) hit the library back to back.
    Both are needed.  In light mode get(i) and mem(v) are explicit self-loop operations whose result is compared
    with the model, and the canonical state carries one feature of the history the container cannot show: the
-   index of the last indexed access (states that differ only in it are distinct, so "get(i) ; rem ; get(i)"
-   is a path of the graph). */
+   kind and index of the last indexed access (states that differ only in it are distinct, so "get(i) ; rem ;
+   get(i)" is a path of the graph; the kind matters because operations may treat a cursor differently), together
+   with the present position of the element that access touched (the model tracks it through insertions and
+   removals), so that a state reached WITH a stale remembered position is not merged with the same contents
+   reached without one. */
 static int light;
 static int lastidx = -1;
+static int lastpos = -1;       /* where the element touched by that access is NOW (-1: gone / unknown): differs from lastidx once
+                                 something in front of it was removed or inserted - exactly when a remembered position is stale */
+static char lastkind = '-';   /* which operation made the last indexed access: g get, s set, i push_at, p pop_at, a aliasing call */
 static var ET;                /* element type of Array/List: Int or Probe */
 static var valobj[8];         /* value carriers 0..nvals (index nvals: a value that is never stored) */
 static var wrongobj;          /* an object of the wrong element type (String) */
@@ -501,7 +507,7 @@ static size_t canon_one(var x, struct seq* m, char* buf, size_t cap) {
 static size_t canon(char* buf, size_t cap) {
   size_t o = canon_one(CA, &MA, buf, cap);
   if (two) { o += snprintf(buf + o, cap - o, " B:"); o += canon_one(CB, &MB, buf + o, cap - o); }
-  if (light) o += snprintf(buf + o, cap - o, " last-index:%d", lastidx);
+  if (light) o += snprintf(buf + o, cap - o, " last-indexed:%c%d@%d", lastkind, lastidx, lastpos);
   return o;
 }
 
@@ -523,7 +529,7 @@ static void reset(void) {
   memset(&MA, 0, sizeof MA); memset(&MB, 0, sizeof MB);
   CA = mk(kindA); MA.exists = 1; MA.kind = kindA; MA.managed = 0;
   CB = NULL; MB.kind = kindB;
-  lastidx = -1;
+  lastidx = -1; lastpos = -1; lastkind = '-';
   setop("init");
 }
 
@@ -673,8 +679,16 @@ static void opname(int op, char* buf, size_t cap) { snprintf(buf, cap, "%s", ops
 
 /* ---- reference model helpers ---------------------------------------------------------------- */
 
-static void m_ins(struct seq* m, int pos, int v) { for (int i = m->n; i > pos; i--) m->v[i] = m->v[i - 1]; m->v[pos] = v; m->n++; }
-static void m_del(struct seq* m, int pos) { for (int i = pos; i + 1 < m->n; i++) m->v[i] = m->v[i + 1]; m->n--; }
+static void m_ins(struct seq* m, int pos, int v) {
+  for (int i = m->n; i > pos; i--) m->v[i] = m->v[i - 1];
+  m->v[pos] = v; m->n++;
+  if (m == &MA && lastpos >= pos) lastpos++;
+}
+static void m_del(struct seq* m, int pos) {
+  for (int i = pos; i + 1 < m->n; i++) m->v[i] = m->v[i + 1];
+  m->n--;
+  if (m == &MA) { if (lastpos == pos) lastpos = -1; else if (lastpos > pos) lastpos--; }
+}
 static int  m_find(struct seq* m, int v) { for (int i = 0; i < m->n; i++) if (m->v[i] == v) return i; return -1; }
 
 static int raised(var e, const char* what) {
@@ -683,7 +697,7 @@ static int raised(var e, const char* what) {
 }
 
 /* the model adopts what the container shows (unspecified conventions only) */
-static void m_adopt(struct seq* m, const int64_t* t, int n) { m->n = n; for (int i = 0; i < n; i++) m->v[i] = (int)t[i]; }
+static void m_adopt(struct seq* m, const int64_t* t, int n) { m->n = n; for (int i = 0; i < n; i++) m->v[i] = (int)t[i]; if (m == &MA) lastpos = -1; }
 
 static int same_as_model(struct seq* m, const int64_t* t, int n) {
   if (n != m->n) return 0;
@@ -907,6 +921,7 @@ static int apply(int op) {
     e = VF_CATCH(pop(CA));
     if (e) return raised(e, "pop");
     MA.n--;
+    if (lastpos >= MA.n) lastpos = -1;
     return VF_OK;
 
   case T_SET: {
@@ -915,7 +930,7 @@ static int apply(int op) {
     setop(o->i < 0 ? "set/negative-index" : "set");
     e = VF_CATCH(set(CA, $I(o->i), elem(kindA, o->a)));
     if (e) return raised(e, "set");
-    MA.v[p] = o->a; lastidx = p;
+    MA.v[p] = o->a; lastidx = p; lastpos = p; lastkind = 's';
     return VF_OK; }
 
   case T_GET: {     /* light oracle only: an explicit query, a self-loop whose result must match the model */
@@ -924,7 +939,7 @@ static int apply(int op) {
     setop(o->i < 0 ? "get/negative-index" : "get");
     e = VF_CATCH({ g_var = get(CA, $I(o->i)); g_i64 = elemval(g_var); });
     if (e) return raised(e, "get");
-    lastidx = p;
+    lastidx = p; lastpos = p; lastkind = 'g';
     if (g_i64 != MA.v[p]) { vf_violation(L("value"), NULL, "get(%" PRId64 ")=%" PRId64 ", reference has %d at that position", o->i, (int64_t)g_i64, MA.v[p]); return VF_BAD; }
     if (kindA != K_TUPLE && type_of(g_var) isnt ET) { vf_violation(L("type"), NULL, "get(%" PRId64 ") is not of the element type", o->i); return VF_BAD; }
     return VF_OK; }
@@ -943,13 +958,13 @@ static int apply(int op) {
       setop("push_at");
       e = VF_CATCH(push_at(CA, elem(kindA, o->a), $I(o->i)));
       if (e) return raised(e, "push_at");
-      m_ins(&MA, (int)o->i, o->a); lastidx = (int)o->i;
+      m_ins(&MA, (int)o->i, o->a); lastidx = (int)o->i; lastpos = lastidx; lastkind = 'i';
       return VF_OK;
     }
     if (o->i == n || (o->i < 0 && o->i >= -(int64_t)(n + 1))) {
       el = elem(kindA, o->a);
       if (propC12) fail_begin();
-      lastidx = (int)(o->i < 0 ? n + 1 + o->i : o->i);
+      lastidx = (int)(o->i < 0 ? n + 1 + o->i : o->i); lastkind = 'i';
       return apply_pushat_unspecified(el, o->a, o->i);
     }
     return VF_SKIP;
@@ -960,7 +975,7 @@ static int apply(int op) {
     setop(o->i < 0 ? "pop_at/negative-index" : "pop_at");
     e = VF_CATCH(pop_at(CA, $I(o->i)));
     if (e) return raised(e, "pop_at");
-    m_del(&MA, p); lastidx = p;
+    m_del(&MA, p); lastidx = p; lastpos = -1; lastkind = 'p';
     return VF_OK; }
 
   case T_REM: {
@@ -989,6 +1004,7 @@ static int apply(int op) {
     e = VF_CATCH(resize(CA, (size_t)m));
     if (e) return raised(e, "resize(n <= len)");
     MA.n = m;
+    if (lastpos >= m) lastpos = -1;
     return VF_OK; }
 
   case T_SORT: {
@@ -1017,6 +1033,7 @@ static int apply(int op) {
     e = VF_CATCH(R[2] = copy(CA));
     if (e) return raised(e, "copy");
     del_c(CA, MA.managed); CA = R[2]; R[2] = NULL; MA.managed = 1;
+    lastidx = -1; lastpos = -1; lastkind = '-';
     return VF_OK;
 
   case T_CONCAT: {
@@ -1041,6 +1058,7 @@ static int apply(int op) {
     if (e) return raised(e, "assign");
     MA.n = srclen[s];
     for (int i = 0; i < srclen[s]; i++) MA.v[i] = srcseq[s][i];
+    lastpos = -1;
     return VF_OK; }
 
   /* ---- aliasing: the argument is an element of the receiver ---- */
@@ -1071,8 +1089,8 @@ static int apply(int op) {
     else e = VF_CATCH(append(CA, el));
     if (e) return raised(e, lastop);
     int v = MA.v[k];
-    lastidx = (isset || isat) ? i : k;
     if (isset) MA.v[i] = v; else if (isat) m_ins(&MA, i, v); else MA.v[MA.n++] = v;
+    lastidx = (isset || isat) ? i : k; lastpos = (isset || isat) ? i : (lastpos == k ? k : -1); lastkind = 'a';
     return VF_OK; }
   case T_AL_CONCAT_SELF:
     if (2 * n > maxlen) return VF_SKIP;
